@@ -209,6 +209,11 @@ def gen(tier, rng):
                 yield f"c18.der.len {n} {hx(v)}"
             if n in RLP_DEC_WIDTHS:
                 yield f"c18.rlp.list1 {n} {hx(v)}"
+                if i % 2 == 0:
+                    # the same value in a three-element list next to zeros / small / large neighbours, zero in every position
+                    z = [0, 0x7f, 0x80, (1 << (8 * nb)) - 1, v]
+                    for trip in ((0, v, 5), (v, 0, 0), (0, 0, 0), (v, rng.choice(z), rng.choice(z))):
+                        yield f"c18.rlp.list3 {n} {hx(trip[0])} {hx(trip[1])} {hx(trip[2])}"
             if i % 7 == 0:
                 total = len(der(v))
                 for cap in (0, total - 1, total, total + 3):
